@@ -78,6 +78,16 @@ def render_block(stmts, ind, out, in_beh):
             else:
                 inner = ", ".join(_call(n) for n, _ in s[1])
             out.append(f"{pad}do {op} {inner}")
+        elif op == "draw":
+            vals, label, form = s[1], s[2], s[3]
+            if form == "uniform":
+                expr = "Uniform(" + ", ".join(str(v) for v, _ in vals) + ")"
+            elif form == "options":
+                expr = "Options({" + ", ".join(f"{v}: {w}" for v, w in vals) + "})"
+            else:
+                expr = f"DiscreteRange({vals[0][0]}, {vals[-1][0]})"
+            out.append(f"{pad}_d = {expr}")
+            out.append(f"{pad}ev({label!r} + '=' + str(_d))")
         elif op == "terminate":
             out.append(f"{pad}terminate")
         elif op == "terminatesim":
@@ -378,6 +388,12 @@ class Ref:
             elif op in ("choose", "shuffle"):
                 yield from self.run_choose(s, inst)
                 self.check_inv(inst)
+            elif op == "draw":
+                # a distribution evaluated at run time is sampled at that moment,
+                # independently of earlier draws:  ["draw", [[value, weight], ...], label]
+                vals = s[1]
+                v = vals[0][0] if len(vals) == 1 else vals[self.pick([w for _, w in vals])][0]
+                self.emit("ev", f"{s[2]}={v}")
             elif op == "terminate":
                 yield ("endscn",)
             elif op == "terminatesim":
@@ -537,9 +553,40 @@ class Ref:
         yield from self.run_block(d["body"], sub)
         return None
 
+    def enabled(self, name, inst):
+        """Do the preconditions (and invariants) of the named behavior/scenario hold now?"""
+        d = scn_def(self.p, name) if inst.kind == "scenario" else beh_def(self.p, name)
+        probe = Inst(d, inst.kind, agent=inst.agent, parent=inst)
+        try:
+            self.check_pre(probe)
+            self.check_inv(probe)
+        except Reject:
+            return False
+        return True
+
+    def pick(self, weights):
+        """Index drawn with probability proportional to weight (exact: the caller walks
+        the whole choice tree through ``self.rng``)."""
+        if self.rng is None:
+            raise Unsupported("random choice without an RNG back end")
+        return self.rng(list(weights))
+
     def run_choose(self, s, inst):
-        raise Unsupported("choose/shuffle handled by subclass")
-        yield  # pragma: no cover
+        kind, items = s[0], s[1]
+        remaining = [list(it) for it in items]
+        while remaining:
+            en = [it for it in remaining if self.enabled(it[0], inst)]
+            if not en:
+                raise Reject("reject", inst.name, "deadlock in do choose/shuffle")
+            it = en[0] if len(en) == 1 else en[self.pick([w for _, w in en])]
+            remaining.remove(it)
+            if inst.kind == "scenario":
+                yield from self.do_scenarios(inst, [it[0]])
+            else:
+                yield from self.do_behavior(inst, it[0])
+            if kind == "choose":
+                break
+        return None
 
     # -- scenarios ---------------------------------------------------------------
     def prepare_scn(self, S, top=False):
